@@ -211,7 +211,7 @@ PROPS = {
         "assumptions": ["no account/commodity filter and no level-0 mapping in this check's flag vectors (the property's own proviso)"],
     },
     "C04": {
-        "lean": ["Knut.Properties.C04", "Knut.FactsAgree.TransCheck", "Knut.FactsAgree.TransCreate", "Knut.FactsAgree.TransCreate2", "Knut.FactsAgree.TransCreate3", "Knut.Properties.C04Go"],
+        "lean": ["Knut.Properties.C04", "Knut.FactsAgree.TransCheck", "Knut.FactsAgree.TransCreate", "Knut.FactsAgree.TransCreate2", "Knut.FactsAgree.TransCreate3", "Knut.Properties.C04Go", "Knut.Properties.C04Go2"],
         "level": "proof",
         "claim": "Refinement theorem C04_refines: on every list of days the model of the checker processor (maps with deletion on close, as in check.go) and the "
                  "lifecycle specification (open set + log of A/L postings; running quantity = sum over the log) give the same verdict and, on rejection, name the same "
